@@ -28,14 +28,23 @@ let u_relex c =
     let cut (s : string) (toks : (int * int * string) list) =
       let pos = ref 0 in
       List.map (fun (w, n, ty) -> let ct = String.sub s (!pos + w) n in pos := !pos + w + n; (ty, ct)) toks in
+    (* a lone CR ends a `//` comment but is no line break for the comment kinds (finding F28): what follows
+       is typed Inline in the input and re-scans as Individual after the reconstructor's safety-net newline.
+       Only in inputs with a lone CR, Inline/Individual of the same comment form count as the same kind. *)
+    let lone_cr =
+      let n = String.length c.input in
+      let rec go i = i < n && ((c.input.[i] = '\r' && (i + 1 = n || c.input.[i + 1] <> '\n')) || go (i + 1)) in go 0 in
+    let kind_eq t t' =
+      t = t' || (lone_cr && ((t = "Comment(InlineLine)" && t' = "Comment(IndividualLine)") || (t = "Comment(IndividualLine)" && t' = "Comment(InlineLine)")
+                             || (t = "Comment(InlineBlock)" && t' = "Comment(IndividualBlock)") || (t = "Comment(IndividualBlock)" && t' = "Comment(InlineBlock)"))) in
     let check who got =
       if got = expect then None
       else begin
         let rec first i a b = match a, b with
-          | (t, x) :: a', (t', y) :: b' -> if t = t' && x = y then first (i + 1) a' b'
+          | (t, x) :: a', (t', y) :: b' -> if kind_eq t t' && x = y then first (i + 1) a' b'
             else Printf.sprintf "%s: token %d re-scans as %s %s, expected %s %s" who i t (hex x) t' (hex y)
           | [], [] -> "same" | _ -> Printf.sprintf "%s: token count differs at %d (%d vs %d)" who i (List.length got) (List.length expect) in
-        Some (first 0 got expect)
+        (match first 0 got expect with "same" -> None | d -> Some d)
       end in
     let model = (match lex (bytes_of_string out) with
         | Some toks -> cut out (List.map (fun ((w, n), ty) -> (int_of_nat w, int_of_nat n, name_of_rtt ty)) toks)
@@ -60,7 +69,7 @@ let u_relex c =
       else begin
         let bad = ref None in
         List.iteri (fun i ((t, x), (t', y)) ->
-          if !bad = None && not (t = t' && norm_eq t x y) then
+          if !bad = None && not (kind_eq t t' && norm_eq t x y) then
             bad := Some (Printf.sprintf "token %d: input %s %s re-scans from the output as %s %s (not a documented normalisation)" i t (hex x) t' (hex y)))
           (List.combine input_toks model);
         !bad
